@@ -583,10 +583,14 @@ class Dataset:
         if not isinstance(other, Dataset):
             return NotImplemented
 
-        self_str_rankings: List[str] = [str(ranking).strip().replace(" ", "") for ranking in self.rankings]
-        other_str_rankings: List[str] = [str(ranking).strip().replace(" ", "") for ranking in other.rankings]
+        # a ranking is compared as the sequence of its buckets, each bucket as a (hashable) set of elements: the result
+        # depends neither on the order in which the members of a bucket are iterated nor on their textual form
+        self_rankings: List[Tuple[frozenset, ...]] = [tuple(frozenset(bucket) for bucket in ranking)
+                                                      for ranking in self.rankings]
+        other_rankings: List[Tuple[frozenset, ...]] = [tuple(frozenset(bucket) for bucket in ranking)
+                                                       for ranking in other.rankings]
 
-        return Counter(self_str_rankings) == Counter(other_str_rankings)
+        return Counter(self_rankings) == Counter(other_rankings)
 
 
 class DatasetSelector:
